@@ -384,6 +384,15 @@ def r4(ctx):
 
 def r5(ctx):
     prog = ctx.prog
+    # …and its columns are CHARACTER columns everywhere (Position::column): tree-sitter's raw point (byte column) is only for handing
+    # ranges back to tree-sitter (injections); a listing that takes `ts_point().column()` agrees with the others on ASCII lines only
+    prog_ = ctx.prog
+    raw = [c for c in prog_.who_calls(r"ast_grep_core::node::Position::ts_point$|tree_sitter_facade_sg::point::native::Point::(column|row)$")
+           if c.fn.crate in ("ast_grep", "ast_grep_lsp") and (c.fn.file.startswith("crates/cli/src/print/") or c.fn.crate == "ast_grep_lsp" or c.fn.file.startswith("crates/cli/src/verify/"))]
+    ctx.ob("R5", "listings take columns from Position::column (characters), never from the raw tree-sitter point", not raw,
+           "no ts_point()/Point::column in the printers, the test runner or the language server" if not raw else
+           "%s reads the raw tree-sitter point: its column is a BYTE column, the other front ends report character columns — ranges differ on every line with a non-ASCII character "
+           "before the match" % raw[0].fn.id, where=raw[0].fn.loc(raw[0].line) if raw else None)
     sites = (
         (r"^ast_grep_lsp::utils::convert_match_to_diagnostic$", r"lsp_types::Diagnostic$", "convert_node_to_range", 1),
         (r"^ast_grep::print::json_print::MatchJSON::<'a>::new$", r"json_print::MatchJSON$", "get_range", 1),
@@ -423,6 +432,7 @@ def r5(ctx):
 def returned_pipeline(prog, f):
     """for a function returning Some(collection): (no dropping adaptor on the way from its sources, adaptor names); flat_map is
     accepted when the iterator its closure returns has no dropping adaptor either.  (None, …) if the shape is not recognised."""
+
     ops = []
     for bi in sorted(f.live_blocks):
         for st in f.blocks[bi]["s"]:
